@@ -64,12 +64,27 @@ class CustomSetattr(nn.Module):
         self.lin = nn.Linear(3, 2)
         self.w = nn.Parameter(torch.ones(2))
         self.register_buffer("c", torch.zeros(2))
+        self.t = torch.full((2,), 0.5)          # a plain tensor attribute (lives in __dict__)
 
     def __setattr__(self, name, value):
         super().__setattr__(name, value)
 
     def forward(self, x):
-        return self.lin(x) * self.w + self.c
+        return self.lin(x) * self.w + self.c + self.t
+
+
+class PlainAttr(nn.Module):
+    """native __setattr__, a plain tensor attribute next to a parameter and a buffer"""
+
+    def __init__(self):
+        super().__init__()
+        self.lin = nn.Linear(3, 2)
+        self.w = nn.Parameter(torch.ones(2))
+        self.register_buffer("c", torch.zeros(2))
+        self.t = torch.full((2,), 0.5)
+
+    def forward(self, x):
+        return self.lin(x) * self.w + self.c + self.t
 
 
 def _tdmodule():
@@ -77,6 +92,20 @@ def _tdmodule():
     a = TensorDictModule(nn.Linear(3, 4), in_keys=["x"], out_keys=["h"])
     b = TensorDictModule(nn.Sequential(nn.Tanh(), nn.Linear(4, 2)), in_keys=["h"], out_keys=["y"])
     return TensorDictSequential(a, b)
+
+
+class WithTDParams(nn.Module):
+    """a module tree that contains a TensorDictParams (to_module swaps its wrapped tensordict)"""
+
+    def __init__(self):
+        super().__init__()
+        from tensordict import TensorDict
+        from tensordict.nn import TensorDictParams
+        self.lin = nn.Linear(3, 2)
+        self.extra = TensorDictParams(TensorDict({"scale": torch.ones(2), "sub": {"shift": torch.zeros(2)}}, []))
+
+    def forward(self, x):
+        return self.lin(x) * self.extra["scale"] + self.extra["sub", "shift"]
 
 
 FACTORIES = {
@@ -88,8 +117,10 @@ FACTORIES = {
     "encoder": (lambda: nn.TransformerEncoderLayer(d_model=4, nhead=2, dim_feedforward=8, dropout=0.0), "seq"),
     "tdseq": (_tdmodule, "td"),
     "lazy": (lambda: nn.Sequential(nn.LazyLinear(2), nn.Tanh()), "tensor"),
+    "with_tdparams": (WithTDParams, "tensor"),
+    "plain_attr": (PlainAttr, "tensor"),
 }
-PARAM_KINDS = ["plain", "tdparams", "as_module", "same", "locked", "subset", "param_all"]
+PARAM_KINDS = ["plain", "tdparams", "as_module", "same", "locked", "subset", "param_all", "cross_kind"]
 OPTIONS = [{}, {"inplace": True}, {"use_state_dict": True}, {"inplace": False}]
 FAULTS = ["none", "before", "forward_hook", "pre_hook", "after"]
 
@@ -119,6 +150,16 @@ def make_params(kind, module, rng):
         return TensorDictParams(data)
     if kind == "param_all":
         return data.apply(lambda t: nn.Parameter(t) if t.is_floating_point() else t)
+    if kind == "cross_kind":
+        # the other class everywhere: plain tensors for the module's Parameters, Parameters for its buffers and for
+        # its plain tensor attributes (which from_module does not list: added by hand)
+        out = base.apply(lambda t: (t.data.clone() * 0.5 + 0.25) if isinstance(t, nn.Parameter) else
+                         (nn.Parameter(t.clone() * 0.5 + 0.25) if t.is_floating_point() else t.clone()))
+        for name, sub in module.named_modules(remove_duplicate=False):
+            for k, v in list(sub.__dict__.items()):
+                if isinstance(v, torch.Tensor) and v.is_floating_point():
+                    out.set(tuple(name.split(".")) + (k,) if name else k, nn.Parameter(v.clone() + 1.0))
+        return out
     if kind == "locked":
         return data.lock_()
     if kind == "subset":
@@ -216,7 +257,7 @@ def one_case(run, fname, pkind, opts, fault, rng):
         try:
             ref_mod = copy.deepcopy(module)
             flat = {(".".join(k) if isinstance(k, tuple) else k): v.detach().clone() for k, v in params.items(True, True)}
-            with time_limit(20):
+            with time_limit(60):
                 ref = as_out(torch.func.functional_call(ref_mod, flat, copy.deepcopy(args), strict=False, tie_weights=False))
         except Exception:  # noqa: BLE001
             ref = None
@@ -232,7 +273,7 @@ def one_case(run, fname, pkind, opts, fault, rng):
     entered = False
     raised = None
     try:
-        with time_limit(30):
+        with time_limit(90):
             swap_td = params.to_module(module, **opts)
             if temp:
                 del params
@@ -341,7 +382,66 @@ def vmap_cases(run, rng):
             run.oracle_ok("zoo_output")
 
 
+def from_module_options(run):
+    """from_module with its options on the real layers: exactly the parameters and buffers under their qualified names"""
+    from tensordict import TensorDict
+    from tensordict.nn import TensorDictParams
+    for fname, (factory, _) in FACTORIES.items():
+        if fname in ("lazy", "with_tdparams"):
+            continue
+        torch.manual_seed(1)
+        module = factory()
+        named = dict(module.named_parameters(remove_duplicate=False))
+        named.update(dict(module.named_buffers(remove_duplicate=False)))
+        for opt in ("default", "as_module", "lock", "filter_empty_false", "use_state_dict"):
+            run.case(("from_module_opt", fname, opt))
+            case = [fname, opt]
+            try:
+                with time_limit(90):
+                    if opt == "default":
+                        td = TensorDict.from_module(module)
+                    elif opt == "as_module":
+                        td = TensorDict.from_module(module, as_module=True)
+                    elif opt == "lock":
+                        td = TensorDict.from_module(module, lock=True)
+                    elif opt == "filter_empty_false":
+                        td = TensorDict.from_module(module, filter_empty=False)
+                    else:
+                        td = TensorDict.from_module(module, use_state_dict=True)
+            except TimeoutError:
+                raise
+            except Exception as e:  # noqa: BLE001
+                run.oracle_fail("from_module_options", case, f"raised {type(e).__name__}", "from_module_options:raised")
+                continue
+            flat = {(".".join(k) if isinstance(k, tuple) else k): v for k, v in td.items(True, True)}
+            bad = []
+            if opt == "use_state_dict":
+                sd = module.state_dict()
+                if set(flat) != set(sd) or any(not torch.equal(flat[k], sd[k]) for k in sd):
+                    bad.append(f"keys/values differ from state_dict(): {sorted(set(flat) ^ set(sd))}")
+            else:
+                if set(flat) != set(named):
+                    bad.append(f"keys differ from named_parameters+named_buffers: {sorted(set(flat) ^ set(named))}")
+                elif opt == "as_module":
+                    # TensorDictParams(no_convert=True) re-wraps plain buffer tensors as Buffer objects over the same storage
+                    wrong = [k for k in named if flat[k] is not named[k] and
+                             (isinstance(named[k], nn.Parameter) or flat[k].data_ptr() != named[k].data_ptr())]
+                    if wrong:
+                        bad.append(f"leaves that are neither the module's object nor a Buffer over its storage: {wrong}")
+                elif any(flat[k] is not named[k] for k in named):
+                    bad.append("some leaf is not the module's own object")
+            if opt == "as_module" and not isinstance(td, TensorDictParams):
+                bad.append("as_module=True did not return a TensorDictParams")
+            if opt == "lock" and not td.is_locked:
+                bad.append("lock=True returned an unlocked tensordict")
+            if bad:
+                run.oracle_fail("from_module_options", case, "; ".join(bad), "from_module_options:" + opt)
+            else:
+                run.oracle_ok("from_module_options")
+
+
 def run_zoo(run):
+    from_module_options(run)
     rng = run.rng
     combos = list(itertools.product(FACTORIES, PARAM_KINDS, range(len(OPTIONS)), FAULTS))
     if run.tier == "quick":
